@@ -1932,6 +1932,15 @@ class Store:
                     'the topology: %s', str(source), str(mismatch_schema))
 
             for port, subschema in schema.items():
+                if port == '_output':
+                    # a flag of the port, not a variable (only
+                    # schema_topology() uses it)
+                    continue
+                if port == '_divider':
+                    # a branch-level divider belongs to this node
+                    self._apply_config(
+                        {'_divider': subschema}, source=source)
+                    continue
                 path = topology.get(port, (port,))
 
                 if port == '*':
